@@ -38,9 +38,14 @@ def check(facts, rep, tier, cfg):
                 if c and c["name"] == "send" and "UnboundedSender::<u32>" in c["path"]:
                     v = strip(tr.operand(t["args"][1]))
                     where = "%s (%s)" % (loc_str(t["loc"]), b.path)
-                    if v.kind == "field" and v[2] == "flow_id" and v[3] == MUX:
+                    rets = [x for x in range(len(b.blocks)) if b.term(x)["k"] == "Return"]
+                    uncond = not any(r in b.reachable_from(0, cut={bi}) for r in rets)
+                    if v.kind == "field" and v[2] == "flow_id" and v[3] == MUX and uncond:
                         ok = True
-                        rep.ok("C06.R1", "drop-sends-own-id", where, "dropped_flows_tx.send(self.flow_id)")
+                        rep.ok("C06.R1", "drop-sends-own-id", where, "dropped_flows_tx.send(self.flow_id) on every path of Drop")
+                    elif v.kind == "field" and v[2] == "flow_id" and v[3] == MUX:
+                        ok = True
+                        rep.bad("C06.R1", "drop-sends-own-id/conditional", where, "Drop notifies the connection task only on some paths: a stream dropped on the other paths keeps its flow-table slot forever (flow id never released)")
                     else:
                         rep.bad("C06.R1", "drop-sends-own-id", where, "Drop notifies the task with `%s` instead of the stream's own flow id" % fmt(v))
     if not ok:
@@ -102,6 +107,25 @@ def check(facts, rep, tier, cfg):
         else:
             rep.bad("C06.R3", "reset-predicate", where, "Reset on close is not guarded by %s" % ("old finish_sent == false" if not a else "inhibit_rst == false (a Reset would be answered with a Reset)"))
     rep.floor("C06.R3", "Reset emissions in the slot-closing function", n, 1)
+    # necessity: with inhibit_rst == false an established, not-yet-finished stream is always answered with Reset
+    for b in crate.bodies:
+        if b.kind == "AssocFn" and any("FlowSlot" in b.locals[i]["s"] and not b.locals[i]["s"].startswith("&") for i in range(1, b.argc + 1)) \
+                and any(b.locals[i]["s"] == "bool" for i in range(1, b.argc + 1)) and "task::" in b.path:
+            flagp = [i for i in range(1, b.argc + 1) if b.locals[i]["s"] == "bool"]
+            eng = EffectEngine(facts)
+            outs = eng.outcomes(b, tuple((p, 0) for p in flagp))
+            rep.paths += eng.states
+            where = "%s (%s)" % (loc_str(b.loc), b.path)
+            miss = [(fa, ef) for fa, ef in outs if "slot:Established" in fa and "finish_sent_old:true" not in fa and "send:Reset" not in ef and "diverges" not in ef]
+            have = [(fa, ef) for fa, ef in outs if "slot:Established" in fa and "finish_sent_old:false" in fa and "send:Reset" in ef]
+            if miss:
+                rep.bad("C06.R3", "reset-always-sent-on-abort", where,
+                        "closing an established stream that did not send Finish (inhibit_rst == false) can return without queuing a Reset "
+                        "(facts %s, effects %s): the peer is never told about the abort and keeps the flow forever" % (sorted(miss[0][0]), sorted(miss[0][1])))
+            elif have:
+                rep.ok("C06.R3", "reset-always-sent-on-abort", where, "every path that did not establish finish_sent == true (with inhibit_rst == false) queues a Reset")
+            else:
+                rep.bad("C06.R3", "reset-always-sent-on-abort", where, "no path of the slot-closing function emits a Reset for an aborted stream")
     # ---- R5 fresh state
     rep.rule("C06.R5", "per-stream state is freshly constructed (no leak into a reused id)")
     allowed_self = {"Task.tx_msg_tx", "Task.dropped_flows_tx", "Task.rwnd", "Task.default_rwnd_threshold"}
